@@ -13,7 +13,7 @@ import (
 // every reachable state of an own property combined with every reachable state of the same property on the prototype.
 
 func init() {
-	register(&Rule{ID: "SPEC-put-delete", Props: []string{"C07"}, Min: 6,
+	register(&Rule{ID: "SPEC-put-delete", Props: []string{"C07", "C01"}, Min: 6,
 		Doc: "S (abstract evaluation over a finite domain): objectGet is evaluated on own x prototype representations (the value of a data property, or the getter called with the receiver - not the holder - as this: 8.12.3); fromPropertyDescriptor is evaluated on every reachable representation (the descriptor object has exactly value / writable or get / set, plus enumerable and configurable, with the stored values: 8.10.4); objectPut and objectDelete are evaluated - through the ordinary object's class table, with the property tables of the object and of its prototype as the only state - on every combination of: the own property in each representation reachable by Object.defineProperty (SPEC-define-own), the prototype missing / without the property / holding it in each reachable representation, the object extensible or not, and throw true or false. The outcome (TypeError, the setter that was called and with which receiver, the own property afterwards, the prototype's property untouched) equals ES5 8.12.4-5 and 8.12.7: a non-writable value never changes, an inherited accessor governs the assignment, an inherited read-only data property or a non-extensible object blocks the creation of an own property, a non-configurable property is not deleted",
 		Run: ruleSpecPutDelete})
 }
